@@ -125,15 +125,21 @@ class CanonError(Exception):
     pass
 
 
+class _FreshInt(int):
+    """an int that is a new object every time: default values that are equal but not identical, so that a
+    conciliation written with `is` instead of `==` shows (small ints are shared objects in CPython)"""
+    __slots__ = ()
+
+
 def dflt_obj(tok):
-    return None if tok == 0 else tok
+    return None if tok == 0 else _FreshInt(tok)
 
 
 def dflt_tok(obj):
     if obj is None:
         return 0
-    if type(obj) is int and obj > 0:
-        return obj
+    if isinstance(obj, int) and not isinstance(obj, bool) and obj > 0:
+        return int(obj)
     raise CanonError('unexpected default %r' % (obj,))
 
 
